@@ -47,6 +47,20 @@ def c10 (op : String) (a : Array Json) : R (Option Json) := do
   | "c10_nonzero" =>
     let prune ← jBool (← arg a 1); let x ← jCoo (← arg a 2)
     pure (some (exceptJ (listJ (listJ natJ)) (nonzeroWith prune x)))
+  | "c10_argminmax_cols" =>
+    let prune ← jBool (← arg a 1); let mx ← jBool (← arg a 2); let n ← jNat (← arg a 3)
+    let fill ← jInt (← arg a 4); let rows ← jList jRow (← arg a 5)
+    pure (some (okJ (listJ natJ (rows.map (argMinMaxColWith prune mx n fill)))))
+  | "c10_excluded_arg_cols" =>
+    let mx ← jBool (← arg a 1); let n ← jNat (← arg a 2); let fill ← jInt (← arg a 3); let rows ← jList jRow (← arg a 4)
+    pure (some (okJ (listJ Json.bool (rows.map (ExcludedArgStoredFill mx n fill)))))
+  -- the decidable regions of the known findings
+  | "c10_excluded_arg" =>
+    let mx ← jBool (← arg a 1); let n ← jNat (← arg a 2); let fill ← jInt (← arg a 3); let es ← jRow (← arg a 4)
+    pure (some (okJ (Json.bool (ExcludedArgStoredFill mx n fill es))))
+  | "c10_excluded_unique" =>
+    let n ← jNat (← arg a 1); let fill ← jInt (← arg a 2); let es ← jRow (← arg a 3)
+    pure (some (okJ (Json.arr #[Json.bool (ExcludedStoredFill n fill es), Json.bool (ExcludedTwoBelow n fill es)])))
   -- the dense specification, for cross-checking the spec itself against NumPy (leg B)
   | "c10_spec_sort" =>
     let desc ← jBool (← arg a 1); let l ← jList jInt (← arg a 2)
